@@ -51,3 +51,11 @@ Theorem C16_ok : forall tab follow max u,
     (get (fun _ x => match tab x with Some r => Ok r | None => Err (lit "unscripted") [] end) follow max u) = true.
 Proof. exact C16_proofs.ok_model. Qed.
 Print Assumptions C16_ok.
+
+(* tie to the code: the definition regenerated from GeminiClient._get_with_redirects computes the model's walk *)
+From NV Require Gen.PyGen Equiv.Equiv.
+Theorem C16_code_tie : forall fetch fuel url max chain,
+  (forall i u m, fetch i u <> Err (lit "OutOfFuel") m) ->
+  Equiv.outcome_of (PyGen.gen_get_with_redirects fetch fuel url max chain) = fst (follow fetch fuel max url chain).
+Proof. exact Equiv.get_with_redirects_tie. Qed.
+Print Assumptions C16_code_tie.
